@@ -2,6 +2,11 @@
 CONSTANTS
   Templates <- QuickTemplates
   MaxParts = 3
+  PermAll = 3
+  HistShapes <- MCHistShapesSmall
+  HistMutNames <- MCHistMutNamesSmall
+  HistSlots = {"iss"}
+  HistDepth = 2
 INIT ConcatInit
 NEXT ConcatNext
 INVARIANTS TypeOK ConcatLaw ExportConcat
